@@ -4,7 +4,8 @@
    - average / weighted / ward: exact rational arithmetic. *)
 Require Import KV.Model.Prelude KV.Model.Condensed KV.Model.Dendrogram KV.Model.Methods KV.Model.State KV.Model.Chain
   KV.Proofs.ShapeCheck KV.Proofs.RelabelWF KV.Proofs.Criteria KV.Proofs.CriteriaRun KV.Proofs.ChainIter
-  KV.Model.Cost KV.Proofs.ChainCost.
+  KV.Model.Cost KV.Proofs.ChainCost KV.Proofs.ChainCriterion KV.Proofs.LWInvariant KV.Proofs.UpdateSpec KV.Proofs.SortProofs.
+From Coq Require Import Permutation.
 From Coq Require Import QArith Qfield Field Lqa.
 
 Set Implicit Arguments.
@@ -55,6 +56,41 @@ Proof.
     intros va vb md sa sb sx _ _ _. apply single_reducible.
   - apply (@nnchain_cost T (kops_of F Complete) p Complete ltb_irrefl ltb_trans ltb_negtrans).
     intros va vb md sa sb sx _ _ _. apply complete_reducible.
+Qed.
+
+Lemma sizes_irrelevant_of meth : uses_sizes_ab meth = false ->
+  forall va vb md sa sb sa' sb' sx,
+  k_upd (kops_of F meth) va vb md sa sb sx = k_upd (kops_of F meth) va vb md sa' sb' sx.
+Proof. destruct meth; intros E; try discriminate; reflexivity. Qed.
+
+(* C02 through nnchain for single / complete: min / max over the cross pairs *)
+Theorem nnchain_complete_criterion s d (m : list T) (n : N) s' d' m' M0 :
+  (n < two32)%N -> wf_shape n (N.of_nat (length m)) ->
+  nnchain_with (kops_of F Complete) p Complete s d m n = Ok (s', d', m') ->
+  prologue p m n = Ok M0 ->
+  exists raw tr L' mem',
+    mtrace (seq 0 (m_obs M0)) Leaf tr L' mem'
+    /\ Forall2 (fun st (ab : mtree * mtree) =>
+                  is_max_over (f_ltb F) (cell_or (f_inf F) M0) (fst ab) (snd ab) (s_dis st)) raw tr
+    /\ length raw = m_obs M0 - 1
+    /\ Permutation (heights d') (map (@s_dis T) raw).
+Proof.
+  intros Hn Hs H HM0.
+  assert (Hsq : square_all (kops_of F Complete) m = m) by (unfold square_all; cbn [kops_of k_sq on_squares]; apply map_id).
+  destruct (@nnchain_criterion T (kops_of F Complete) p Complete ltb_irrefl ltb_trans ltb_negtrans
+              ltac:(intros va vb md sa sb sx _ _ _; apply complete_reducible)
+              (is_max_over (f_ltb F) (cell_or (f_inf F) M0))
+              (@max_sym T (f_ltb F) _ (cell_or_sym (f_inf F) M0))
+              ltac:(intros X A B va vb md Ha Hb _; exact (@max_merge T (f_ltb F) ltb_trans ltb_negtrans _ X A B va vb Ha Hb))
+              (@sizes_irrelevant_of Complete)
+              s d m n s' d' m' M0 Hn Hs H ltac:(rewrite Hsq; exact HM0)
+              ltac:(intros x y v Hxy Hx Hy Hv; split;
+                    [exists x, y; cbn [leaves]; split; [left; reflexivity|]; split; [left; reflexivity|];
+                     unfold cell_or; rewrite Hv; reflexivity
+                    |intros x' y' [<-|[]] [<-|[]]; unfold cell_or; rewrite Hv; apply ltb_irrefl]))
+    as (raw & tr & L' & mem' & Htr & HF & Hlen & Hperm).
+  exists raw, tr, L', mem'. split; [exact Htr|]. split; [exact HF|]. split; [exact Hlen|].
+  cbn [kops_of k_rt on_squares] in Hperm. rewrite map_id in Hperm. exact Hperm.
 Qed.
 
 End Sel.
@@ -137,6 +173,29 @@ Theorem nnchain_Q_cost meth s d (m : list Q) (n : N) s' d' m' cnt :
 Proof.
   intros Hm. apply (@nnchain_cost Q (kops_of (QFr rt) meth) p meth qlt_irrefl qlt_trans qlt_negtrans).
   apply q_reducible. exact Hm.
+Qed.
+
+(* C02 through nnchain for average / weighted / ward over Q: the closed-form
+   criterion of CriteriaRun.crit_of *)
+Theorem nnchain_criterion_Q meth s d (m : list Q) (n : N) s' d' m' M0 :
+  meth = Average \/ meth = Weighted \/ meth = Ward ->
+  (n < two32)%N -> wf_shape n (N.of_nat (length m)) ->
+  nnchain_with (kops_of (QFr rt) meth) p meth s d m n = Ok (s', d', m') ->
+  prologue p (square_all (kops_of (QFr rt) meth) m) n = Ok M0 ->
+  exists raw tr L' mem',
+    mtrace (seq 0 (m_obs M0)) Leaf tr L' mem'
+    /\ Forall2 (fun st (ab : mtree * mtree) => crit_of meth M0 (fst ab) (snd ab) (s_dis st)) raw tr
+    /\ length raw = (m_obs M0 - 1)%nat
+    /\ Permutation (heights d') (map (k_rt (kops_of (QFr rt) meth)) (map (@s_dis Q) raw)).
+Proof.
+  intros Hm Hn Hs H HM0.
+  apply (@nnchain_criterion Q (kops_of (QFr rt) meth) p meth qlt_irrefl qlt_trans qlt_negtrans
+           (q_reducible Hm) (crit_of meth M0) (@crit_of_sym meth M0)
+           ltac:(intros X A B va vb md Ha Hb Hmd; cbn [kops_of k_upd]; rewrite upd_QFr; apply crit_of_merge; assumption)
+           ltac:(intros E va vb md sa sb sa' sb' sx; cbn [kops_of k_upd]; rewrite !upd_QFr;
+                 destruct meth; try discriminate; reflexivity)
+           s d m n s' d' m' M0 Hn Hs H HM0).
+  intros x y v Hxy _ _ Hv. apply crit_of_leaf; assumption.
 Qed.
 
 End QRuns.
